@@ -3,7 +3,10 @@
 EXTENDS LoaderContract, Json, IOUtils
 Obs == ndJsonDeserialize(IOEnv.OBS_FILE)
 VARIABLE l
-SigOf(o) == <<Raised(o) \ {"ok", "none"}>>
+\* what the caller saw raised, and which loader threads died of what (the caller is the first thread)
+CallerRaised(o) == {o.results[i].res : i \in DOMAIN o.results} \ {"ok"}
+ThreadsDied(o) == {o.errs[i] : i \in (DOMAIN o.errs) \ {1}} \ {"none"}
+SigOf(o) == <<o.variant, CallerRaised(o), ThreadsDied(o)>>
 Say(tag, prop, clause, o) == PrintT(ToJson(<<tag, prop, clause, o.k, SigOf(o)>>))
 Chk(P, prop, clause, o) == IF P THEN TRUE ELSE Say("VIOL", prop, clause, o)
 Check(i) == LET o == Obs[i] IN
